@@ -23,7 +23,8 @@ func init() {
 			"(random) random bytes. Every trial under a fragmentation plan (whole, 1-byte, header/body/boundary cuts, random, chunked, zero-length reads) on a real channel; " +
 			"oracle against an independent total reference decoder of the bytes actually supplied: delivered (= read to the end without error) messages must be the reference's complete frames in order with exact end offsets; nothing may be delivered for a truncated or invalid tail; " +
 			"no delivery that consumed zero source bytes (trial cut off after 3); inactive after end of stream; bytes pulled per read-loop iteration <= max+header; no runtime.Error exception; worker process survives. " +
-			"distinct_nontrivial = distinct (configuration shape, family/header class, cut class, terminal, fragmentation kind)",
+			"plus packet mode (PacketCodec alone and in front of a length-field / delimiter decoder): sequences of 2..7 packets (each ended by io.EOF, fragmented) of which some are cut by a read error half-way, declare a length above the maximum, or are shorter than their header says, the channel surviving because the exception is consumed; oracle: the delivered messages are exactly the complete packets in order (nothing of a packet that ended in an exception shows up later). " +
+			"distinct_nontrivial = distinct (configuration shape, family/header class, cut class, terminal, fragmentation kind) resp. (inner decoder, packet kind sequence)",
 		Assumptions: []string{
 			"a delivered reader that returns an error before its end is not a delivered frame (the property's own definition); the collector then raises the error like the shipped codecs do",
 			"exceptions are always an allowed outcome: the check never demands that a complete frame is delivered (that is C04)",
@@ -35,7 +36,7 @@ func init() {
 		Shards:           func(tier string) int { return 16 },
 		TimeoutSec:       func(tier string) int { return map[bool]int{true: 300, false: 2400}[tier != "thorough"] },
 		CrashIsViolation: true,
-		Required:         []string{"streams", "frames_checked", "cut_points", "tails_trunc-body", "tails_trunc-header", "tails_reject", "tails_end"},
+		Required:         []string{"packet_frames_checked", "streams", "frames_checked", "cut_points", "tails_trunc-body", "tails_trunc-header", "tails_reject", "tails_end"},
 		Run:              run,
 	})
 }
@@ -85,6 +86,16 @@ func run(c *core.Ctx) {
 		c.Count("configs_other", int64(1+2*len(fc.Delims)+len(fc.FixedSizes)))
 		c.Count("fragmentation_kinds", int64(len(allPlans)))
 		c.Count("terminal_behaviours", int64(len(fc.Terms)))
+	}
+	for i, n := 0, c.Scale(1600, 80000); i < n; i++ {
+		if !c.Mine(i) {
+			continue
+		}
+		id := fmt.Sprintf("pkt%d", i)
+		if !c.Case(id) {
+			continue
+		}
+		packetTrial(c, id, i)
 	}
 	for b := 0; b < nBase; b++ {
 		if !c.Mine(b) {
@@ -399,6 +410,9 @@ func trial(c *core.Ctx, id string, cfg fc.Cfg, s sub, rng *rand.Rand, rot int) {
 	c.Max("max_pulled_per_iteration", res.MaxPull)
 	c.Sig(cfg.Shape(), s.name, s.cut, plan.Term, plan.Kind)
 	judge(c, id, cfg, s, plan, frames, tail, layout, res)
+	if rot%3 == 1 {
+		wrappedTrial(c, id, cfg, s, plan, frames, rng)
+	}
 	if c.WantSample() && rot%211 == 17 {
 		c.Sample(map[string]interface{}{"case": id, "config": cfg.String(), "family": s.name, "cut_class": s.cut, "stream": fc.Hex(s.stream, 48),
 			"reference_frames": len(frames), "reference_tail": tail.Kind, "plan": plan.Detail(), "messages": len(res.Msgs), "exceptions": fc.ErrStrings(res.Exceptions), "inactive": res.Inactive})
@@ -538,5 +552,51 @@ walk:
 	}
 	if len(seen) == 0 {
 		c.Count("trials_clean", 1)
+	}
+}
+
+// wrappedTrial repeats a trial on the library's own read-buffering transport wrappers (tcp Options.ReadBufferSize > 0):
+// the decoders then read through bufio, which pulls ahead, so only contents are judged: the delivered messages must be
+// a prefix of the reference's complete frames (an exception may end the stream early, nothing else may show up).
+func wrappedTrial(c *core.Ctx, id string, cfg fc.Cfg, s sub, plan fc.Plan, frames []fc.RFrame, rng *rand.Rand) {
+	wv := [][2]int{{64, 0}, {64, 64}, {16, 0}, {4096, 4096}, {1, 0}}[rng.Intn(5)]
+	res := fc.Run(fc.Trial{Cfg: cfg, Stream: s.stream, Plan: plan, ReadBuf: pick(rng, []int{1, 7, 512}), Wrap: &wv, ContentOnly: true, StopAfter: len(frames) + 3})
+	if res.BuildErr != "" || res.Watchdog {
+		c.Inconclusive(id, "wrapped trial: watchdog or constructor: "+cfg.String())
+		return
+	}
+	c.Count("wrapped_streams", 1)
+	where := fmt.Sprintf("%s on NewTransport(conn,%d,%d), %d supplied byte(s) [%s, %s] then %s, fragmentation %s", cfg, wv[0], wv[1], len(s.stream), s.name, s.cut, plan.Term, plan.Kind)
+	det := func() map[string]interface{} {
+		var ms []string
+		for i, m := range res.Msgs {
+			if i < 8 {
+				ms = append(ms, fmt.Sprintf("%s err=%v", fc.Hex(m.Data, 24), m.Err))
+			}
+		}
+		return map[string]interface{}{"config": cfg.String(), "wrapper": wv, "stream_head": fc.Hex(s.stream, 128), "plan": plan.Detail(), "messages": ms,
+			"reference_frames": len(frames), "exceptions": fc.ErrStrings(res.Exceptions)}
+	}
+	i := 0
+	for _, m := range res.Msgs {
+		if m.Err != nil {
+			continue
+		}
+		switch {
+		case i >= len(frames):
+			c.Violation("C08:wrapped-transport:message-beyond-complete-frames:"+cfg.Kind, id, fmt.Sprintf("%s: a %d-byte message was delivered although the stream holds only %d complete frame(s) (end of stream / truncated frame delivered as a message)", where, len(m.Data), len(frames)), det())
+			return
+		case !bytes.Equal(m.Data, frames[i].Out):
+			c.Violation("C08:wrapped-transport:delivered-frame-differs-from-reference:"+cfg.Kind, id, fmt.Sprintf("%s: message #%d (%d bytes) differs from reference frame #%d (%d bytes)", where, i, len(m.Data), i, len(frames[i].Out)), det())
+			return
+		}
+		i++
+		c.Count("wrapped_frames_checked", 1)
+	}
+	if e := res.RuntimeFault(); e != nil {
+		c.Violation("C08:runtime-error-exception:"+cfg.Kind, id, fmt.Sprintf("%s: the decoder failed with a runtime fault: %v", where, e), det())
+	}
+	if res.Forced == "" && res.Inactive == 0 {
+		c.Violation("C08:no-inactive-after-end-of-stream:"+cfg.Kind, id, where+": the read loop ended but the channel never became inactive", det())
 	}
 }
